@@ -462,6 +462,12 @@ func (r *transport) handleStaleWhileRevalidate(
 	// which would abort every revalidation). It is bounded by the
 	// stale-while-revalidate timeout alone.
 	req2 := req.Clone(context.WithoutCancel(req.Context()))
+	// The same goes for the deprecated Cancel channel, which Clone copies (and
+	// which http.Client closes when its Timeout fires). Nor may the background
+	// request read the caller's body: the caller owns it again once this call has
+	// returned. A validation request needs none.
+	req2.Cancel = nil //nolint:staticcheck // see above
+	req2.Body, req2.GetBody, req2.ContentLength = nil, nil, 0
 	// Background revalidation is "best effort"; it is not guaranteed to complete
 	// if the program exits before the goroutine finishes. This design choice was
 	// made to keep the API simple and avoid requiring explicit shutdown coordination.
